@@ -2,6 +2,10 @@
 package c06
 
 import (
+	"strings"
+	"github.com/ipld/go-ipld-prime/datamodel"
+	"github.com/ipld/go-ipld-prime/node/basicnode"
+	"github.com/ipld/go-ipld-prime/fluent/qp"
 	"github.com/libp2p/go-libp2p/core/crypto"
 	secp "github.com/decred/dcrd/dcrec/secp256k1/v4"
 	"math/big"
@@ -72,7 +76,7 @@ type Case struct {
 
 var byteKinds = []string{"bitflip", "delete", "insert-00", "insert-ff", "insert-copy", "subst-00", "subst-ff", "subst-not"}
 var fieldKinds = []string{"rewrite", "remove", "add-unknown"}
-var sigKinds = []string{"issuer-signs-noncanonical-bytes", "issuer-signs-noncanonical-bytes", "resign-by-prefix-twin", "forger-key-in-did-url", "forger-key-in-did-url", "issuer-under-other-multicodec", "issuer-under-other-multicodec", "issuer-signs-other-payload-encoding", "issuer-signs-other-payload-encoding", "issuer-signs-header-insert", "issuer-signs-header-insert", "issuer-signs-header-delete", "issuer-signs-header-subst", "issuer-signs-header-dup-segment", "issuer-signs-foreign-header", "issuer-signs-garbled-header", "issuer-signs-empty-header", "issuer-signs-extended-header", "resign-other-same-alg", "resign-other-alg", "resign-signer-header", "borrow-signature", "header-other-alg", "header-garbled", "header-empty", "sig-truncate", "sig-empty", "sig-extend", "sig-zero", "ecdsa-forged-for-zero-digest", "ecdsa-forged-for-zero-digest", "ecdsa-trivial-values"}
+var sigKinds = []string{"issuer-signs-noncanonical-bytes", "issuer-signs-noncanonical-bytes", "resign-by-prefix-twin", "forger-signs-multi-payload-envelope", "forger-signs-multi-payload-envelope", "forger-key-in-did-url", "forger-key-in-did-url", "issuer-under-other-multicodec", "issuer-under-other-multicodec", "issuer-signs-other-payload-encoding", "issuer-signs-other-payload-encoding", "issuer-signs-header-insert", "issuer-signs-header-insert", "issuer-signs-header-delete", "issuer-signs-header-subst", "issuer-signs-header-dup-segment", "issuer-signs-foreign-header", "issuer-signs-garbled-header", "issuer-signs-empty-header", "issuer-signs-extended-header", "resign-other-same-alg", "resign-other-alg", "resign-signer-header", "borrow-signature", "header-other-alg", "header-garbled", "header-empty", "sig-truncate", "sig-empty", "sig-extend", "sig-zero", "ecdsa-forged-for-zero-digest", "ecdsa-forged-for-zero-digest", "ecdsa-trivial-values"}
 
 var dlgFields = []string{"iss", "aud", "sub", "cmd", "pol", "nonce", "meta", "nbf", "exp"}
 var invFields = []string{"iss", "aud", "sub", "cmd", "args", "prf", "nonce", "meta", "exp", "iat", "cause"}
@@ -297,6 +301,38 @@ func corrupt(cs Case, sealed []byte) (out []byte, oldSig bool, ok bool) {
 			return nil, false, false
 		}
 		b, err := env.Assemble(sig, sp)
+		return b, false, err == nil
+	case "forger-signs-multi-payload-envelope":
+		// an envelope whose signed map holds the header and SEVERAL ucan/ entries: a decoy payload naming the forger as
+		// issuer (under another version tag, a near-tag, or the other token type's tag) next to the payload that names
+		// the victim - all of it signed by the forger with its own header. There is one payload and it names the one
+		// issuer whose key verifies the signature; anything else is not an envelope.
+		forger := otherKey(iss, c.Alt%2 == 0, c.Alt).Key()
+		decoy := val.V{K: "map"}
+		for _, kv := range payload.M {
+			if kv.K == "iss" {
+				kv.V = val.Str(forger.DID.String())
+			}
+			decoy.M = append(decoy.M, kv)
+		}
+		base := e.Tag
+		if i := strings.Index(base, "@"); i > 0 {
+			base = base[:i]
+		}
+		decoyTags := []string{base + "@1.0.0", base + "@0.9.0", base + "@1.0.0-rc.0", "ucan/dlg@1.0.0", "ucan/inv@1.0.0", "ucan/a", e.Tag + ".1", "a", "zzz"}
+		dt := decoyTags[(c.Alt/2)%len(decoyTags)]
+		if dt == e.Tag {
+			dt = dt + "x"
+		}
+		sp, berr := qp.BuildMap(basicnode.Prototype.Any, 3, func(ma datamodel.MapAssembler) {
+			qp.MapEntry(ma, "h", qp.Bytes(env.HeaderFor(forger.Priv.Type())))
+			qp.MapEntry(ma, dt, qp.Node(decoy.Node()))
+			qp.MapEntry(ma, e.Tag, qp.Node(e.Payload))
+		})
+		if berr != nil {
+			return nil, false, false
+		}
+		b, err := env.Seal(forger.Priv, sp)
 		return b, false, err == nil
 	case "forger-key-in-did-url":
 		// iss names the victim's did:key FOLLOWED by DID-URL parts that carry the forger's key (fragment, query, path,
